@@ -289,7 +289,15 @@ class Interp(object):
     def op_set_link(self, x, path):
         x.link = path
 
-    def op_set_include(self, x, url):
+    def op_set_include(self, x, f=None, frag=None, url=None):
+        """include = URL#path; f: index of a file of the durable store (file: URL), or a literal url."""
+        if url is None:
+            if not self.U.files:
+                raise Skip("no file")
+            ent = self.U.files[f % len(self.U.files)]
+            url = "file://" + ent["path"]
+        if frag is not None:
+            url = url + "#" + frag
         x.include = url
 
     def op_finalize(self, d):
